@@ -415,6 +415,7 @@ class PanicAnalysis:
         self.unknown_callees = {}
         self.callee_inventory = {}
         self.pending_pre = []  # (callee fn, site key, obligation builder)
+        self.uninlined = set()  # new helpers met as opaque calls (nesting deeper than the inlining bound)
 
     # ---- per function
     def analyse_fn(self, fn, env_facts=None):
@@ -490,6 +491,9 @@ class PanicAnalysis:
         self.callee_inventory.setdefault(path, 0)
         self.callee_inventory[path] += 1
         if path in self.facts.fns:
+            from .rules.util import is_new_fn
+            if is_new_fn(path) and self.facts.fns[path].d["kind"] != "closure":
+                self.uninlined.add(path)
             return
         kind = PANICKY.get(path)
         if path not in PANICKY:
